@@ -91,6 +91,54 @@ def rand_burst_history(rng):
     return h
 
 
+def rand_flows_burst_history(rng, thorough=False):
+    """flows mode: bursts of very many fresh failing sequences (a few thousand each: capacity / eviction effects of the counter
+    store) between the steps of tracked sequences; one flow or several flows with a Retry processor each; zero cool-down"""
+    seqs = ["s1", "s2"]
+    if rng.random() < 0.5:
+        A = rng.choice([1, 2, 2, 3])
+        h = [{"ev": "reset", "mode": "flows", "A": A, "cd": 0, "mult": 0, "ranges": [[500, 599]], "seqs": seqs}]
+        u = None
+    else:
+        flows = [{"name": "f1", "url": "api.test/*", "key": "RetryProc", "A": rng.choice([1, 2, 3])},
+                 {"name": "f2", "url": "api.test/orders", "key": rng.choice(["RetryProc", "Retry_f2"]), "A": rng.choice([1, 2, 3])}]
+        h = [{"ev": "reset", "mode": "flows", "A": 0, "cd": 0, "mult": 0, "ranges": [[500, 599]], "seqs": seqs, "flows": flows}]
+        u = "orders"
+    def resp(s):
+        e = {"ev": "resp", "s": s, "st": rng.choice([500, 503]), "new": False}
+        if u:
+            e["u"] = u
+        return e
+    # every call of the Retry processor costs 1 ms of real time (MockClock.After sleeps to yield): bursts are kept just above
+    # the sizes at which a bounded store would start evicting in the quick tier
+    for _ in range(rng.randint(3, 4) if thorough else 2):
+        for _ in range(rng.randint(1, 2)):
+            h.append(resp(rng.choice(seqs)))
+        b = {"ev": "burst", "n": rng.randint(1100, 3000 if thorough else 1300), "st": 500}
+        if u:
+            b["u"] = u
+        h.append(b)
+    for _ in range(rng.randint(2, 5)):
+        h.append(resp(rng.choice(seqs)))
+    return h
+
+
+def shrinking_cooldown_history(rng):
+    """policy mode: the announced cool-down shrinks from one retry to the next (multiplier 0 or 1 with a client that comes back
+    sooner), so a later state write has an earlier expiry than the entry it replaces"""
+    A = rng.choice([3, 4, 5])
+    ranges = rng.choice(RANGE_POOL)
+    hot = [st for st in ST_POOL if in_cond(ranges, st)]
+    h = [{"ev": "reset", "mode": "policy", "A": A, "cd": rng.choice([1, 2, 5, 9]), "mult": rng.choice([0, 0, 1]), "ranges": ranges, "seqs": ["s1", "s2"]}]
+    for s in ("s1", "s2"):
+        h.append({"ev": "resp", "s": s, "st": rng.choice(hot), "new": True})
+    for _ in range(rng.randint(A + 2, A + 6)):
+        if rng.random() < 0.3:
+            h.append({"ev": "adv", "d": rng.choice([1, 1, 2, 5])})
+        h.append({"ev": "resp", "s": rng.choice(["s1", "s1", "s2"]), "st": rng.choice(hot), "new": False})
+    return h
+
+
 def script_of(hist):
     return [{k: v for k, v in e.items() if k not in ("out", "ra", "refused")} for e in hist]
 
@@ -300,6 +348,10 @@ def run(ctx):
             return rand_multi_history(ctx.rng, T)
         if j == 0 and (T or i < 3):
             return rand_burst_history(ctx.rng)
+        if j == 1 and (T or i < 2):
+            return rand_flows_burst_history(ctx.rng, T)
+        if j in (2, 5):
+            return shrinking_cooldown_history(ctx.rng)
         return rand_history(ctx.rng, "policy" if (i + j) % 2 == 0 else "flows", T)
     scripts = [{"histories": [pick(i, j) for j in range(nh)]} for i in range(nscripts)]
     traces = execute(ctx, binary, scripts, "rand")
